@@ -57,11 +57,20 @@ EventStep(ev) ==
      /\ PubAt(PubG(ev.p), "before") /\ Top(PubG(ev.p)).pub = ev.p /\ HookBefore(PubG(ev.p), ev.h) /\ UNCHANGED toks
   \/ /\ ev.e = "hooka" /\ KnownSync(ev.p) /\ ev.ok
      /\ PubAt(PubG(ev.p), "after") /\ Top(PubG(ev.p)).pub = ev.p /\ HookAfter(PubG(ev.p), ev.h) /\ UNCHANGED toks
+  \/ /\ ev.e = "perss" /\ KnownSync(ev.p) /\ ev.ok                    \* ok: the persist context descends from OnPublishStart's
+     /\ PubAt(PubG(ev.p), "pers0") /\ Top(PubG(ev.p)).pub = ev.p /\ ObsPersistStart(PubG(ev.p)) /\ UNCHANGED toks
+  \/ /\ ev.e = "append" /\ KnownSync(ev.p) /\ ev.ok                   \* ok: type name and data are the event's
+     /\ PubAt(PubG(ev.p), "append") /\ Top(PubG(ev.p)).pub = ev.p /\ StoreAppend(PubG(ev.p), ev.res) /\ UNCHANGED toks
+  \/ /\ ev.e = "persd" /\ KnownSync(ev.p) /\ ev.ok                    \* ok: complete receives the context its start returned
+     /\ PubAt(PubG(ev.p), "pers1") /\ Top(PubG(ev.p)).pub = ev.p /\ ObsPersistDone(PubG(ev.p), ev.err) /\ UNCHANGED toks
+  \/ /\ ev.e = "perrh" /\ KnownSync(ev.p) /\ ev.ok                    \* ok: called with the event and its type
+     /\ PubAt(PubG(ev.p), "perrh") /\ Top(PubG(ev.p)).pub = ev.p /\ PersistErrH(PubG(ev.p)) /\ UNCHANGED toks
   \/ /\ ev.e = "filter" /\ KnownSync(ev.p)
      /\ PubAt(PubG(ev.p), "filter") /\ Top(PubG(ev.p)).pub = ev.p /\ Filter(PubG(ev.p), ev.r, ev.res) /\ UNCHANGED toks
   \/ /\ ev.e = "hstart"
      /\ \E g \in Gs : /\ stack[g] # <<>> /\ Top(g).k = "inv" /\ Top(g).pub = ev.p /\ Top(g).async = ev.async
                       /\ (~ev.async => KnownSync(ev.p) /\ g = PubG(ev.p))
+                      /\ ev.pok                                \* the handler context's innermost span is the publish's
                       /\ ObsHandlerStart(g)
                       /\ toks' = (g :> Append(Tok(g), ev.tok)) @@ toks
   \/ /\ ev.e = "enter" /\ KnownInv(ev.r, ev.p)
